@@ -61,7 +61,12 @@ def unit_decorator(tier):
                 rec['hit'] = True
                 return SObj('MemoValue')
             rec['hit'] = False
-            return interp.call(f.get('fn'), args, kwargs, line)
+            val = interp.call(f.get('fn'), args, kwargs, line)
+            if rec.get('func_raised'):
+                # lru_cache memoises whatever the wrapped function RETURNS: a normal return after the computation failed puts an object built
+                # from the exception (whose traceback frames reference self) into the cache
+                rec['stored_after_raise'] = True
+            return val
         if isinstance(f, SObj) and f._cls == 'WeakRef':
             # the caller holds a strong reference to the object while the call runs: the referent is alive
             rec.setdefault('deref', []).append(f)
@@ -77,20 +82,34 @@ def unit_decorator(tier):
         # apply the returned decorator to an abstract method F and call the resulting `inner`
         calls = []
 
+        from verif.engine.interp import _Raise
+
         def F(ii, ll, *a, **k):
             calls.append((a, k))
+            if ii.ctx.branch(ii.ctx.fresh_bool('computation_fails'), ll):
+                rec['func_raised'] = True
+                raise _Raise('ValueError', line=ll)
             return SObj('Result', of=(a, tuple(sorted(k.items()))))
         func = PyFn(F, name='F')
         inner = interp.call(wrapper, [func], {}, None)
         obj = SObj('Analysis')
         a1, k1 = z3.Int('arg1'), z3.Real('kwarg_dimensions')
-        res = interp.call(inner, [obj, a1], {'dimensions': k1}, None)
+        propagated = False
+        try:
+            res = interp.call(inner, [obj, a1], {'dimensions': k1}, None)
+        except _Raise as e_:
+            propagated = (e_.exc_type or '').split('.')[-1] == 'ValueError'
+            res = None
         out = [('default cache size 128, untyped', z3.BoolVal(rec.get('lru_args') == (128, False))),
                ('metadata of the wrapped method preserved (functools.wraps(func))', z3.BoolVal(rec.get('wrapped') is func))]
         keys = rec.get('cache_keys', [])
         ok_key = len(keys) == 1 and len(keys[0][0]) == 2 and isinstance(keys[0][0][0], SObj) and keys[0][0][0]._cls == 'WeakRef' \
             and keys[0][0][0].get('referent') is obj and keys[0][0][1] is a1 and keys[0][1] == {'dimensions': k1}
         out.append(('cache key = (weakref.ref(self), *args, **kwargs): no strong reference to self in the key', z3.BoolVal(bool(ok_key))))
+        if rec.get('func_raised'):
+            out.append(('a failing computation is not memoised: its exception leaves the cached function', z3.BoolVal(not rec.get('stored_after_raise'))))
+            out.append(('and reaches the caller unchanged', z3.BoolVal(bool(propagated))))
+            return out
         if rec.get('hit'):
             out.append(('hit: the memoised value is returned, nothing recomputed', z3.BoolVal(isinstance(res, SObj) and res._cls == 'MemoValue' and not calls)))
         else:
@@ -380,6 +399,12 @@ def replay_interleaving(inputs):
 
         def g(self, k=0, *, scale=1):
             return (self.v * 1000 + k) * scale
+
+        @weak_lru_cache()
+        def h(self, k=0):
+            if k >= 0:
+                raise ValueError(f'cannot analyse {self.v}')
+            return k
     live = []
     import weakref
     for step in range(int(inputs.get('steps', 300))):
@@ -397,6 +422,12 @@ def replay_interleaving(inputs):
             i_ = int(rng.integers(len(live)))
             w = weakref.ref(live[i_])
             live[i_].f(1)
+            for _rep in range(2):
+                try:
+                    live[i_].h(int(rng.integers(0, 3)))  # a cached method whose computation fails: the error propagates, nothing is kept
+                    bad.append(f'step {step}: the failing cached method returned instead of raising')
+                except ValueError:
+                    pass
             del live[i_]
             gc.collect()
             if w() is not None:
@@ -423,6 +454,30 @@ def replay_interleaving(inputs):
         bad.append('Jumps.matrix: cached != uncached')
     if dict(jumps.counter()) != dict(type(jumps).counter.__wrapped__(jumps)):
         bad.append('Jumps.counter: cached != uncached')
+    # every cached method without required arguments, on real objects: cached value == uncached recomputation done afterwards on the same object
+    import inspect
+    from verif.native.purity import same as _same, snap as _snap
+    objs = [tr, jumps, tr.trajectory.metrics()]
+    try:
+        objs.append(jumps.collective(max_dist=3.5))
+    except Exception as e:
+        bad.append(f'Jumps.collective raised {type(e).__name__}: {e}')
+    for o in objs:
+        for name, member in inspect.getmembers(type(o)):
+            w = getattr(member, '__wrapped__', None)
+            if w is None or name.startswith('_') or isinstance(member, property):
+                continue
+            sig = inspect.signature(w)
+            if any(p_.default is inspect.Parameter.empty and p_.kind in (p_.POSITIONAL_OR_KEYWORD, p_.KEYWORD_ONLY) for n_, p_ in list(sig.parameters.items())[1:]):
+                continue
+            try:
+                c_val = _snap(getattr(o, name)())
+                c_again = _snap(getattr(o, name)())
+                u_val = _snap(w(o))
+            except ValueError:
+                continue  # e.g. known finding C19-empty-part in Jumps.rates
+            if not _same(c_val, u_val) or not _same(c_val, c_again):
+                bad.append(f'{type(o).__name__}.{name}: cached value differs from an uncached recomputation on the same object')
     tr2, jumps2 = _mk_jumps(inputs['seed'] + 1)
     if jumps.n_jumps != jumps2.n_jumps and np.array_equal(jumps.matrix(), jumps2.matrix()) and not np.array_equal(type(jumps).matrix.__wrapped__(jumps2), jumps.matrix()):
         bad.append('a result of one Jumps object was served for another')
